@@ -107,3 +107,27 @@ neutral("simple-reorder-tilde-caret", ["C01"], (R, "        terminated(tilde, pe
 neutral("desugar-version-literal", ["C01"], (R, "            ) => BoundSet::at_least(Predicate::Including((major, minor + 1, 0).into())),", "            ) => BoundSet::at_least(Predicate::Including(Version {\n                major,\n                minor: minor + 1,\n                patch: 0,\n                pre_release: Vec::new(),\n                build: Vec::new(),\n            })),"))
 neutral("fold-explicit-loop", ["C02", "C01"], (R, "            let mut sets = bs.into_iter().flatten();\n            match sets.next() {\n                Some(first) => sets\n                    .try_fold(first, |acc, bs| acc.intersect(&bs))\n                    .into_iter()\n                    .collect(),\n                None => Vec::new(),\n            }",
            "            let mut acc: Option<BoundSet> = None;\n            let mut any = false;\n            for b in bs.into_iter().flatten() {\n                if !any {\n                    acc = Some(b);\n                    any = true;\n                } else if let Some(a) = acc.take() {\n                    acc = a.intersect(&b);\n                }\n            }\n            acc.into_iter().collect()"))
+
+# ---- C17
+mutant("c17-advanced-input", ["C17"], (L, "                ErrMode::Backtrack(e) | ErrMode::Cut(e) => SemverError {\n                    input: original.into(),", "                ErrMode::Backtrack(e) | ErrMode::Cut(e) => SemverError {\n                    input: input.into(),"))
+mutant("c17-advanced-base-range", ["C17"], (R, "span: (e.input.as_ptr() as usize - original.as_ptr() as usize, 0).into(),", "span: (e.input.as_ptr() as usize - input.as_ptr() as usize, 0).into(),"))
+mutant("c17-len-minus-1", ["C17"], (L, "                span: (input.len(), 0).into(),\n                kind: SemverErrorKind::MaxLengthError,", "                span: (input.len() - 1, 0).into(),\n                kind: SemverErrorKind::MaxLengthError,"))
+mutant("c17-maxint-ge", ["C17"], (L, "        if value > MAX_SAFE_INTEGER {", "        if value >= MAX_SAFE_INTEGER {"))
+mutant("c17-maxint-wrong-position", ["C17"], (L, "            return Err(SemverParseError {\n                input: copied,\n                context: None,\n                kind: Some(SemverErrorKind::MaxIntError(value)),", "            return Err(SemverParseError {\n                input: raw,\n                context: None,\n                kind: Some(SemverErrorKind::MaxIntError(value)),"))
+mutant("c17-kind-lost-in-append", ["C17"], (L, "            input: input.clone(),\n            context: self.context,\n            kind: self.kind,", "            input: input.clone(),\n            context: self.context,\n            kind: None,"))
+mutant("c17-guard-after-parse", ["C17"], (L, "        if input.len() > MAX_LENGTH {", "        if input.len() > MAX_LENGTH + 1 {"))
+mutant("c17-context-before-kind", ["C17"], (R, "                    kind: if let Some(kind) = e.kind {\n                        kind\n                    } else if let Some(ctx) = e.context {\n                        SemverErrorKind::Context(ctx)\n                    } else {", "                    kind: if let Some(ctx) = e.context {\n                        SemverErrorKind::Context(ctx)\n                    } else if let Some(kind) = e.kind {\n                        kind\n                    } else {"))
+mutant("c17-novalid-never", ["C17"], (R, "        if sets.is_empty() {\n            Err(SemverParseError {", "        if sets.len() > 1000 {\n            Err(SemverParseError {"))
+neutral("parse-original-shadow", ["C17"], (L, "        let original = input.as_ref();\n        let mut input = original;\n\n        if input.len() > MAX_LENGTH {", "        let original: &str = input.as_ref();\n        let mut input: &str = <&str>::clone(&original);\n\n        if original.len() > MAX_LENGTH {"))
+
+# ---- C06
+mutant("c06-unwrap-in-desugar", ["C06"], (R, "        partial => BoundSet::exact(partial.into()),\n    })\n    .context(\"plain version range (ex: 1.2)\")", "        partial => Some(BoundSet::exact(partial.into()).unwrap()),\n    })\n    .context(\"plain version range (ex: 1.2)\")"))
+mutant("c06-separator-space0", ["C06"], (R, "        separated(0.., simple, space1),", "        separated(0.., simple, space0),"))
+mutant("c06-recursion", ["C06"], (R, "                Bound::Upper(_) => None,\n            }\n        } else {\n            None\n        }", "                Bound::Upper(_) => self.min_version(),\n            }\n        } else {\n            None\n        }"))
+mutant("c06-index-vec", ["C06"], (R, "        if let Some(min_bound) = self.0.iter().map(|range| &range.lower).min() {", "        if let Some(min_bound) = Some(&self.0[0].lower) {"))
+mutant("c06-cmp-cell-reverted", ["C06", "C07"],
+       (R, "            | (Lower(Including(v1)), Upper(Excluding(v2)))\n            | (Upper(Including(v1)), Upper(Excluding(v2))) => {", "            | (Lower(Including(v1)), Upper(Excluding(v2))) => {"),
+       (R, "            (Upper(Including(v1)), Lower(Excluding(v2)))\n            | (Lower(Excluding(v1)), Upper(Including(v2))) => {", "            (Upper(Including(v1)), Lower(Excluding(v2)))\n            | (Upper(Including(v1)), Upper(Excluding(v2)))\n            | (Lower(Excluding(v1)), Upper(Including(v2))) => {"))
+mutant("c06-while-loop", ["C06"], (R, "    pub fn any() -> Self {\n        Self(vec![BoundSet::new(Bound::lower(), Bound::upper()).unwrap()])", "    pub fn any() -> Self {\n        let mut n = 0u64;\n        while n < MAX_SAFE_INTEGER {\n            n += 2;\n        }\n        Self(vec![BoundSet::new(Bound::lower(), Bound::upper()).unwrap()])"))
+mutant("c06-len-minus-one", ["C06"], (L, "                span: (input.len(), 0).into(),\n                kind: SemverErrorKind::MaxLengthError,", "                span: (input.len() - 300, 0).into(),\n                kind: SemverErrorKind::MaxLengthError,"))
+neutral("range-any-expect-free", ["C06"], (R, "        Self(vec![BoundSet::new(Bound::lower(), Bound::upper()).unwrap()])", "        Self(BoundSet::new(Bound::lower(), Bound::upper()).into_iter().collect())"))
